@@ -159,8 +159,10 @@ macro_rules! quoted_err_harness {
     };
 }
 
-// One case per obligation (five in one did not finish in 300 s).  The error span never
-// splits a character:
+// One case per obligation (five in one did not finish in 300 s).  NOT REGISTERED unless
+// C05.toml lists them: no result in 120 s each (hex/octal digit parsing and the
+// run-to-end-of-input loop behind unfolded `Option<char>` / `Result` tags).  The error
+// span never splits a character:
 // \x + e-acute + 1: two CHARACTERS are taken as the digits, span = both (3 bytes)
 quoted_err_harness!(lex_quoted_string__hex_escape_followed_by_multibyte_char, "\\x\u{e9}1\"", 2, 3);
 // \0 + e-acute + 7: three characters from the 0 (4 bytes)
